@@ -13,12 +13,13 @@
 import LzProofs.GenGSAPLemmas
 import LzProofs.GenParseShared
 import LzProofs.GenHPParse
+import LzProofs.GenCallByName
 
 set_option linter.unusedSimpArgs false
 set_option linter.unusedVariables false
 
 namespace LZ.GenGSAP
-open LZ LZ.Gen LZ.GenBuf LZ.GenHash LZ.GenSuffix LZ.GenBitset LZ.GsapBits LZ.GenHPParse LZ.GenParse LZ.GenBUPParse
+open LZ LZ.Gen LZ.GenDec LZ.GenBuf LZ.GenHash LZ.GenSuffix LZ.GenBitset LZ.GsapBits LZ.GenHPParse LZ.GenParse LZ.GenBUPParse
 
 /-! ## the bitset invariant of a block -/
 
@@ -131,8 +132,10 @@ theorem cand_one (lcp : Slice → Slice → Int) (hlcp : LcpSpec lcp) (SA : GSli
   simp only [Slice.data, List.drop_take]
 
 set_option maxHeartbeats 1000000 in
-/-- **one iteration of the greedy loop = one step of `gsapProbeW`** -/
-theorem loop1_step (grow : Nat → Nat → Nat) (lcp : Slice → Slice → Int) (hlcp : LcpSpec lcp)
+/-- **one iteration of the greedy loop = one step of `gsapProbeW`**, the loop function applied BY GO VARIABLE NAME
+    (`gcall%`, LzProofs/GenCallByName.lean): this is the form `loops_eq` uses; the audited `loop1_step` below is the same
+    statement with the positional application -/
+theorem loop1_step_n (grow : Nat → Nat → Nat) (lcp : Slice → Slice → Int) (hlcp : LcpSpec lcp)
     (SS : Slice → GSlice Int32 → Res (GSlice Int32)) (BI : Gen.bitset → List Int → Res Gen.bitset) (hBI : InsertSpec BI)
     (PB : Gen.ParserBuffer) (SA ISA : GSlice Int32) (CFG : Gen.GSAPConfig) (N e mm ws : Nat)
     (hfix : LoopFix PB SA ISA CFG N e mm ws) (A : List UInt8) (he : e ≤ A.length)
@@ -141,14 +144,16 @@ theorem loop1_step (grow : Nat → Nat → Nat) (lcp : Slice → Slice → Int) 
     (hfuel : e + (N / 64 + 3) ≤ fuel + i) :
     ∃ r, gsapProbeW ws mm (ofGW s) (A.take e) i li = some r ∧
       ∃ s', LInv PB SA ISA CFG N e s' ∧ r.1 = ofGW s' ∧
-        gsap_Parse_loop_1 grow lcp SS BI { arr := A, len := e } (fuel + 1) s blk ia lia =
+        (gcall% gsap_Parse_loop_1 [grow := grow, lcp := lcp, suffix_Sort := SS, bitset_insert := BI,
+            p := ({ arr := A, len := e } : Slice), fuel := fuel + 1, s := s, blk := blk, i := ia, litIndex := lia]) =
           (match r.2 with
-          | none => gsap_Parse_loop_1 grow lcp SS BI { arr := A, len := e } fuel s' blk (ia + 1) lia
+          | none => (gcall% gsap_Parse_loop_1 [grow := grow, lcp := lcp, suffix_Sort := SS, bitset_insert := BI,
+            p := ({ arr := A, len := e } : Slice), fuel := fuel, s := s', blk := blk, i := ia + 1, litIndex := lia])
           | some (st, k, o) =>
-            gsap_Parse_loop_1 grow lcp SS BI { arr := A, len := e } fuel s'
+            (gcall% gsap_Parse_loop_1 [grow := grow, lcp := lcp, suffix_Sort := SS, bitset_insert := BI,
+            p := ({ arr := A, len := e } : Slice), fuel := fuel, s := s', blk := 
               { Sequences := blk.Sequences ++ [seqRep { litLen := st - li, matchLen := k, offset := o }],
-                Literals := Slice.append grow blk.Literals ((A.drop li).take (st - li)) }
-              ((st + k : Nat) : Int) ((st + k : Nat) : Int)) ∧
+                Literals := Slice.append grow blk.Literals ((A.drop li).take (st - li)) }, i := ((st + k : Nat) : Int), litIndex := ((st + k : Nat) : Int)])) ∧
         (∀ st k o, r.2 = some (st, k, o) → st = i ∧ 1 ≤ k ∧ i + k ≤ e) := by
   obtain ⟨hpb, hsa, hisa, hcfg, hbs, hmk⟩ := hinv
   obtain ⟨pb, sa, isa, bits, cfg⟩ := s
@@ -197,17 +202,22 @@ theorem loop1_step (grow : Nat → Nat → Nat) (lcp : Slice → Slice → Int) 
       · exact hlc _
       · exact hlc _
   -- the Go side in continuation form
-  have hGo : ∀ R : Res (Gen.gsap × Block' × Int × Int),
-      (c.2 < mm → gsap_Parse_loop_1 grow lcp SS BI { arr := A, len := e } fuel ⟨pb, sa, isa, b1, cfg⟩ blk ((i : Int) + 1) lia = R) →
+  -- (the type of `R` is the result type of the loop function, whatever the order of its state tuple)
+  have hGo : ∀ R : Res _,
+      (c.2 < mm → (gcall% gsap_Parse_loop_1 [grow := grow, lcp := lcp, suffix_Sort := SS, bitset_insert := BI,
+            p := ({ arr := A, len := e } : Slice), fuel := fuel, s := ⟨pb, sa, isa, b1, cfg⟩, blk := blk, i := (i : Int) + 1, litIndex := lia]) = R) →
       (¬ c.2 < mm → ¬ (c.1 < i ∧ i - c.1 < ws) →
-        gsap_Parse_loop_1 grow lcp SS BI { arr := A, len := e } fuel ⟨pb, sa, isa, b1, cfg⟩ blk ((i : Int) + 1) lia = R) →
+        (gcall% gsap_Parse_loop_1 [grow := grow, lcp := lcp, suffix_Sort := SS, bitset_insert := BI,
+            p := ({ arr := A, len := e } : Slice), fuel := fuel, s := ⟨pb, sa, isa, b1, cfg⟩, blk := blk, i := (i : Int) + 1, litIndex := lia]) = R) →
       (¬ c.2 < mm → (c.1 < i ∧ i - c.1 < ws) →
-        (Res.bind (gsap_Parse_loop_2 grow lcp SS BI ((i : Int) + (c.2 : Int)) fuel ⟨pb, sa, isa, b1, cfg⟩ ((i : Int) + 1)) fun r =>
-          gsap_Parse_loop_1 grow lcp SS BI { arr := A, len := e } fuel r.1
+        (Res.bind (gcall% gsap_Parse_loop_2 [grow := grow, lcp := lcp, suffix_Sort := SS, bitset_insert := BI,
+            litIndex := (i : Int) + (c.2 : Int), fuel := fuel, s := ⟨pb, sa, isa, b1, cfg⟩, i := (i : Int) + 1]) fun r =>
+          (gcall% gsap_Parse_loop_1 [grow := grow, lcp := lcp, suffix_Sort := SS, bitset_insert := BI,
+            p := ({ arr := A, len := e } : Slice), fuel := fuel, s := (gproj% gsap_Parse_loop_2 s ((), r)), blk := 
             { Sequences := blk.Sequences ++ [seqRep { litLen := i - li, matchLen := c.2, offset := i - c.1 }],
-              Literals := Slice.append grow blk.Literals ((A.drop li).take (i - li)) }
-            (r.2 - 1 + 1) ((i : Int) + (c.2 : Int))) = R) →
-      gsap_Parse_loop_1 grow lcp SS BI { arr := A, len := e } (fuel + 1) ⟨pb, sa, isa, bits, cfg⟩ blk (i : Int) lia = R := by
+              Literals := Slice.append grow blk.Literals ((A.drop li).take (i - li)) }, i := (gproj% gsap_Parse_loop_2 i ((), r)) - 1 + 1, litIndex := (i : Int) + (c.2 : Int)])) = R) →
+      (gcall% gsap_Parse_loop_1 [grow := grow, lcp := lcp, suffix_Sort := SS, bitset_insert := BI,
+            p := ({ arr := A, len := e } : Slice), fuel := fuel + 1, s := ⟨pb, sa, isa, bits, cfg⟩, blk := blk, i := (i : Int), litIndex := lia]) = R := by
     intro R h1 h2 h3
     rw [gsap_Parse_loop_1]
     have hc1 : (i : Int) < Int.ofNat ({ arr := A, len := e } : Slice).len := by show (i : Int) < (e : Int); omega
@@ -281,7 +291,8 @@ theorem loop1_step (grow : Nat → Nat → Nat) (lcp : Slice → Slice → Int) 
   rw [if_neg hA]
   by_cases hB : c.1 < i ∧ i - c.1 < ws
   · rw [if_neg (fun hh => hh hB)]
-    obtain ⟨bits', w', r6, k2, k3, k4⟩ := ranks_loop_eq BI hBI (gsap_Parse_loop_2 grow lcp SS BI ((i : Int) + (c.2 : Int)))
+    obtain ⟨bits', w', r6, k2, k3, k4⟩ := ranks_loop_eq BI hBI (fun fuel s i0 => (gcall% gsap_Parse_loop_2 [grow := grow, lcp := lcp, suffix_Sort := SS, bitset_insert := BI,
+            litIndex := (i : Int) + (c.2 : Int), fuel := fuel, s := s, i := i0]))
       (fun _ => (i : Int) + (c.2 : Int)) (fun _ _ => rfl) (i + c.2) (fun fuel s i => by rw [gsap_Parse_loop_2])
       (c.2 - 1) fuel (i + 1) ((i : Int) + 1) ⟨pb, sa, isa, b1, cfg⟩ (by omega) (Or.inl (by omega)) (by omega) (by omega)
       hfix.wisa hfix.nisa (Or.inl (by show i + c.2 ≤ isa.len; rw [hfix.lisa]; omega)) hb1
@@ -293,8 +304,9 @@ theorem loop1_step (grow : Nat → Nat → Nat) (lcp : Slice → Slice → Int) 
     refine ⟨_, rfl, ⟨pb, sa, isa, bits', cfg⟩, ⟨rfl, rfl, rfl, rfl, k4, by rw [k3]; exact k6⟩,
       by show _ = GsapDW.mk _ _ (ofBS bits'); rw [k3], ?_, ?_⟩
     · refine hGo _ (fun h => absurd h hA) (fun _ h => absurd hB h) (fun _ _ => ?_)
-      have r6' : gsap_Parse_loop_2 grow lcp SS BI ((i : Int) + (c.2 : Int)) fuel ⟨pb, sa, isa, b1, cfg⟩ ((i : Int) + 1) =
-          Res.ok (⟨pb, sa, isa, bits', cfg⟩, ((i + 1 + (c.2 - 1) : Nat) : Int)) := r6
+      have r6' : (gcall% gsap_Parse_loop_2 [grow := grow, lcp := lcp, suffix_Sort := SS, bitset_insert := BI,
+            litIndex := (i : Int) + (c.2 : Int), fuel := fuel, s := ⟨pb, sa, isa, b1, cfg⟩, i := (i : Int) + 1]) =
+          Res.ok (gstate% gsap_Parse_loop_2 [s := ⟨pb, sa, isa, bits', cfg⟩, i := ((i + 1 + (c.2 - 1) : Nat) : Int)]) := r6
       rw [r6', bind_ok]
       have h1 : ((i + 1 + (c.2 - 1) : Nat) : Int) - 1 + 1 = ((i + c.2 : Nat) : Int) := by omega
       have h2 : (i : Int) + (c.2 : Int) = ((i + c.2 : Nat) : Int) := by omega
@@ -310,6 +322,28 @@ theorem loop1_step (grow : Nat → Nat → Nat) (lcp : Slice → Slice → Int) 
     refine ⟨_, rfl, ⟨pb, sa, isa, b1, cfg⟩, ⟨rfl, rfl, rfl, rfl, hb1, by rw [a1]; exact m1⟩, hofb1, ?_, ?_⟩
     · exact hGo _ (fun h => absurd h hA) (fun _ _ => rfl) (fun _ h => absurd h hB)
     · intro st k o h; cases h
+
+set_option maxHeartbeats 1000000 in
+/-- **one iteration of the greedy loop = one step of `gsapProbeW`** -/
+theorem loop1_step (grow : Nat → Nat → Nat) (lcp : Slice → Slice → Int) (hlcp : LcpSpec lcp)
+    (SS : Slice → GSlice Int32 → Res (GSlice Int32)) (BI : Gen.bitset → List Int → Res Gen.bitset) (hBI : InsertSpec BI)
+    (PB : Gen.ParserBuffer) (SA ISA : GSlice Int32) (CFG : Gen.GSAPConfig) (N e mm ws : Nat)
+    (hfix : LoopFix PB SA ISA CFG N e mm ws) (A : List UInt8) (he : e ≤ A.length)
+    (fuel i li : Nat) (ia lia : Int) (s : Gen.gsap) (blk : Block')
+    (hinv : LInv PB SA ISA CFG N e s) (hia : ia = (i : Int)) (hlia : lia = (li : Int)) (hi : i < e) (hli : li ≤ i)
+    (hfuel : e + (N / 64 + 3) ≤ fuel + i) :
+    ∃ r, gsapProbeW ws mm (ofGW s) (A.take e) i li = some r ∧
+      ∃ s', LInv PB SA ISA CFG N e s' ∧ r.1 = ofGW s' ∧
+        gsap_Parse_loop_1 grow lcp SS BI { arr := A, len := e } (fuel + 1) s blk ia lia =
+          (match r.2 with
+          | none => gsap_Parse_loop_1 grow lcp SS BI { arr := A, len := e } fuel s' blk (ia + 1) lia
+          | some (st, k, o) =>
+            gsap_Parse_loop_1 grow lcp SS BI { arr := A, len := e } fuel s'
+              { Sequences := blk.Sequences ++ [seqRep { litLen := st - li, matchLen := k, offset := o }],
+                Literals := Slice.append grow blk.Literals ((A.drop li).take (st - li)) }
+              ((st + k : Nat) : Int) ((st + k : Nat) : Int)) ∧
+        (∀ st k o, r.2 = some (st, k, o) → st = i ∧ 1 ≤ k ∧ i + k ≤ e) :=
+  loop1_step_n grow lcp hlcp SS BI hBI PB SA ISA CFG N e mm ws hfix A he fuel i li ia lia s blk hinv hia hlia hi hli hfuel
 
 /-! ## the whole loop -/
 
@@ -327,26 +361,31 @@ theorem loops_eq (grow : Nat → Nat → Nat) (lcp : Slice → Slice → Int) (h
     ∃ (st' : LoopSt GsapDW) (s' : Gen.gsap) (blk' : Block'),
       ProbeW.greedyLoopW (gsapProbeW ws mm) (A.take e) e
         { dict := ofGW s, i := w, litIndex := w, seqs := [], lits := [] } = some st' ∧
-      gsap_Parse_loop_1 grow lcp SS BI { arr := A, len := e } fuel s blk (w : Int) (w : Int) =
-        Res.ok (s', blk', (e : Int), (st'.litIndex : Int)) ∧
+      (gcall% gsap_Parse_loop_1 [grow := grow, lcp := lcp, suffix_Sort := SS, bitset_insert := BI,
+            p := ({ arr := A, len := e } : Slice), fuel := fuel, s := s, blk := blk, i := (w : Int), litIndex := (w : Int)]) =
+        Res.ok (gstate% gsap_Parse_loop_1 [s := s', blk := blk', i := (e : Int), litIndex := (st'.litIndex : Int)]) ∧
       LInv PB SA ISA CFG N e s' ∧ st'.dict = ofGW s' ∧ st'.i = e ∧ st'.litIndex ≤ e ∧ w ≤ st'.litIndex ∧
       blk'.Sequences = st'.seqs.map seqRep ∧ blk'.Literals.data = st'.lits ∧ SWF blk'.Literals := by
   let loopF : Nat → Int → Gen.gsap → Block' → Int → Res (Int × Gen.gsap × Block' × Int) :=
     fun fuel ia s blk lia =>
-      Res.bind (gsap_Parse_loop_1 grow lcp SS BI { arr := A, len := e } fuel s blk ia lia) fun r =>
-        Res.ok (r.2.2.1, r.1, r.2.1, r.2.2.2)
+      Res.bind (gcall% gsap_Parse_loop_1 [grow := grow, lcp := lcp, suffix_Sort := SS, bitset_insert := BI,
+            p := ({ arr := A, len := e } : Slice), fuel := fuel, s := s, blk := blk, i := ia, litIndex := lia]) fun r =>
+        Res.ok (gproj% gsap_Parse_loop_1 i ((), r), gproj% gsap_Parse_loop_1 s ((), r),
+          gproj% gsap_Parse_loop_1 blk ((), r), gproj% gsap_Parse_loop_1 litIndex ((), r))
   obtain ⟨st', s', blk', h1, h2, h3, h4, h5, h6, h7, h8, h9, h10, h11⟩ :=
     greedy_generic (gsapProbeW ws mm) loopF ofGW (LInv PB SA ISA CFG N e) grow A e e e (N / 64 + 3) 0
       (Nat.le_refl _) (Nat.le_refl _) he
       (fun fuel ia s blk lia hia => by
-        show Res.bind (gsap_Parse_loop_1 grow lcp SS BI { arr := A, len := e } (fuel + 1) s blk ia lia) _ = _
+        show Res.bind (gcall% gsap_Parse_loop_1 [grow := grow, lcp := lcp, suffix_Sort := SS, bitset_insert := BI,
+            p := ({ arr := A, len := e } : Slice), fuel := fuel + 1, s := s, blk := blk, i := ia, litIndex := lia]) _ = _
         rw [gsap_Parse_loop_1, if_neg (by show ¬ ia < (e : Int); exact hia)]
         rfl)
       (fun fuel i li ia lia s blk hI hia hlia _ hi hli hf => by
-        obtain ⟨r, hr, s1, hI1, hr1, hstp, hb⟩ := loop1_step grow lcp hlcp SS BI hBI PB SA ISA CFG N e mm ws hfix A he
+        obtain ⟨r, hr, s1, hI1, hr1, hstp, hb⟩ := loop1_step_n grow lcp hlcp SS BI hBI PB SA ISA CFG N e mm ws hfix A he
           fuel i li ia lia s blk hI hia hlia hi hli hf
         refine ⟨r, hr, s1, hI1, hr1, ?_, ?_⟩
-        · show Res.bind (gsap_Parse_loop_1 grow lcp SS BI { arr := A, len := e } (fuel + 1) s blk ia lia) _ = _
+        · show Res.bind (gcall% gsap_Parse_loop_1 [grow := grow, lcp := lcp, suffix_Sort := SS, bitset_insert := BI,
+            p := ({ arr := A, len := e } : Slice), fuel := fuel + 1, s := s, blk := blk, i := ia, litIndex := lia]) _ = _
           rw [hstp]
           cases r.2 with
           | none => rfl
@@ -361,17 +400,21 @@ theorem loops_eq (grow : Nat → Nat → Nat) (lcp : Slice → Slice → Int) (h
   have hdone : ProbeW.greedyLoopW (gsapProbeW ws mm) (A.take e) e st' = some st' :=
     ProbeW.greedyLoopW_done _ _ _ _ (by omega)
   refine ⟨st', s', blk', by rw [h1, hdone], ?_, h3, h4, hi', by omega, h11, h8, h9, h10⟩
-  have h2' : Res.bind (gsap_Parse_loop_1 grow lcp SS BI { arr := A, len := e } fuel s blk (w : Int) (w : Int))
-      (fun r => Res.ok (r.2.2.1, r.1, r.2.1, r.2.2.2)) = Res.ok ((st'.i : Int), s', blk', (st'.litIndex : Int)) := h2
-  cases hL : gsap_Parse_loop_1 grow lcp SS BI { arr := A, len := e } fuel s blk (w : Int) (w : Int) with
+  have h2' : Res.bind (gcall% gsap_Parse_loop_1 [grow := grow, lcp := lcp, suffix_Sort := SS, bitset_insert := BI,
+            p := ({ arr := A, len := e } : Slice), fuel := fuel, s := s, blk := blk, i := (w : Int), litIndex := (w : Int)])
+      (fun r => Res.ok (gproj% gsap_Parse_loop_1 i ((), r), gproj% gsap_Parse_loop_1 s ((), r),
+        gproj% gsap_Parse_loop_1 blk ((), r), gproj% gsap_Parse_loop_1 litIndex ((), r))) =
+      Res.ok ((st'.i : Int), s', blk', (st'.litIndex : Int)) := h2
+  cases hL : (gcall% gsap_Parse_loop_1 [grow := grow, lcp := lcp, suffix_Sort := SS, bitset_insert := BI,
+            p := ({ arr := A, len := e } : Slice), fuel := fuel, s := s, blk := blk, i := (w : Int), litIndex := (w : Int)]) with
   | ok r =>
     rw [hL, bind_ok] at h2'
-    obtain ⟨r1, r2, r3, r4⟩ := r
+    -- the components of the result by name; the tuple is put together again by eta
     injection h2' with h2'
     simp only [Prod.mk.injEq] at h2'
     obtain ⟨q1, q2, q3, q4⟩ := h2'
-    subst q1 q2 q3 q4
-    rw [hi']
+    rw [hi'] at q1
+    rw [← q1, ← q2, ← q3, ← q4]
   | panic => rw [hL] at h2'; cases h2'
   | fuel => rw [hL] at h2'; cases h2'
 
@@ -438,6 +481,7 @@ theorem greedyLoopW_lift (ws mm : Nat) (p : List Byte) (stop : Nat) :
 
 end LZ.GenGSAP
 
+#print axioms LZ.GenGSAP.loop1_step_n
 #print axioms LZ.GenGSAP.loop1_step
 #print axioms LZ.GenGSAP.loops_eq
 #print axioms LZ.GenGSAP.greedyLoopW_lift
